@@ -100,6 +100,10 @@ func c11ListsU() []GOp {
 
 func runC11(c *fw.Ctx) {
 	var item int64
+	if c.Thorough() {
+		// 11 names: 2048 buckets
+		c11Universe = append(c11Universe, "a/b/c", "a.", "b/c-d")
+	}
 	c11Run(c, &item, c11Universe, c11Lists())
 	c11Run(c, &item, c11UniverseU, c11ListsU())
 	c.Bound("universe", c11Universe)
